@@ -45,6 +45,7 @@ class FrameRecorder:
             vc.spiller.__dict__["_c14s_slots"] = {}
             r = rec._orig_gen(vc, *a, **k)
             try:
+                rec._check_initial_fmp(vc, r)
                 rec._check(vc)
             except Exception as e:  # noqa  (a checker failure must be visible, not silent)
                 rec.bad.append({"problem": f"frame checker failed: {type(e).__name__}: {e}"})
@@ -57,6 +58,28 @@ class FrameRecorder:
     def __exit__(self, *a):
         self._sp._get_spill_slot = self._orig_get
         self._vc.generate_evm_assembly = self._orig_gen
+
+    def _check_initial_fmp(self, vc, asm):
+        """The dynamic-allocation region starts at the assembler constant __initial_fmp__ (the value `initial_fmp` reads) and
+        only grows upwards (bump); it must therefore start at or above the end of every static frame and of every spill slot
+        actually handed out in this context -- otherwise a dalloca'd buffer aliases a spilled stack value or a static
+        allocation.  The constant is read from the EMITTED assembly, not recomputed."""
+        consts = [x for x in asm if type(x).__name__ == "CONST" and getattr(x, "name", None) == "__initial_fmp__"]
+        if not consts:
+            return
+        self.n_fmp_consts = getattr(self, "n_fmp_consts", 0) + 1
+        fmp0 = consts[0].value
+        alloc = vc.ctx.mem_allocator
+        slots = vc.spiller.__dict__.get("_c14s_slots", {})
+        for fn in vc.ctx.functions.values():
+            for a in alloc.mems_used.get(fn, []):
+                if not a.is_dynamic and a in alloc.allocated and alloc.allocated[a] + a.alloca_size > fmp0:
+                    self.bad.append({"function": fn.name.value, "initial_fmp": fmp0,
+                                     "aliases": f"static allocation [{alloc.allocated[a]},{alloc.allocated[a] + a.alloca_size}) lies above the initial FMP"})
+            for off in slots.get(fn) or ():
+                if off + 32 > fmp0:
+                    self.bad.append({"function": fn.name.value, "initial_fmp": fmp0, "spill_slot": off,
+                                     "aliases": "spill slot lies at or above the initial FMP: dynamic allocations (dalloca / bump) alias it"})
 
     def _check(self, vc):
         ctx = vc.ctx
